@@ -26,7 +26,7 @@ def setup(symbolic):
 def bounds(tier):
     return {'announcements': '<= %d, load addresses free 64-bit (duplicates, adjacency, any order decided by the solver); '
                              'single map records and launch windows' % (3 if tier == 'quick' else 4),
-            'samples': '1..2 per stream, frames free 64-bit, header count N free in 0..9, 0..2 data records',
+            'samples': '1..2 per stream, frames free 64-bit, header count N free in 0..9, 0..2 data records, the stack header before, between or after them',
             'timestamps': 'sample START timestamp free 64-bit'}
 
 
